@@ -17,7 +17,7 @@ import struct
 
 from mc import core, explore
 from mc.world import World, Monitor
-from mc.pair import DeliveryMonitor, app_send, payload, quiescent
+from mc.pair import DeliveryMonitor, app_send, payload, quiescent, RETRY
 from mpgameserver.connection import ConnectionStatus
 
 PROPERTY = "C07"
@@ -314,6 +314,65 @@ def params_list(tier):
     return out
 
 
+class _Recorder(object):
+    def __init__(self):
+        self.calls = []
+
+    def on_sent(self, success):
+        self.calls.append(bool(success))
+
+
+def shared_cb_scenario(params, ch):
+    """several sends in ONE frame that use the same callback - the same function object, or bound methods of one object
+    (fresh but equal objects): the callback fires once PER SEND"""
+    direction, n, retry, kind, blackout = params
+    mon = DeliveryMonitor(flag_delivery=False)
+    w = World(chooser=ch, monitors=[mon])
+    sender = direction[0]
+    try:
+        w.run_until_connected()
+        w.run(2)
+        rec = _Recorder()
+        fn_calls = []
+
+        def plain(success):
+            fn_calls.append(bool(success))
+        w.fates = ["drop", "delay8"]
+        datas = []
+        for i in range(n):
+            data = payload(i + 1, 20 + i)
+            datas.append(data)
+            mon.note_sent(sender, data)
+            cb = plain if kind == "function" else rec.on_sent      # rec.on_sent: a new, equal bound-method object each time
+            if sender == "c":
+                w.clients[0].client.send(data, retry=RETRY[retry].value, callback=cb)
+            else:
+                w.server_conn(0).send(data, retry=RETRY[retry], callback=cb)
+        if blackout:
+            w.start_blackout("c2s" if sender == "c" else "s2c", blackout)
+        w.run(6)
+        w.fates = []
+        w.run(160)
+        w.run(200, quiescent)
+        w.run(71)
+        ch.steps = w.tickno
+        calls = fn_calls if kind == "function" else rec.calls
+        c_ok = w.clients[0].conn is not None and w.clients[0].conn.status == ConnectionStatus.CONNECTED
+        s_ok = w.server_conn(0) is not None and w.server_conn(0).status == ConnectionStatus.CONNECTED
+        ch.outcome = (tuple(calls), c_ok, s_ok)
+        if c_ok and s_ok:
+            if retry == "none" and len(calls) != n:
+                ch.flag("exactly-once", "sends that share one callback (%s): the callback did not fire once per send" % ("the same function object" if kind == "function" else "equal bound methods"),
+                        "%d unretried sends in one frame, callback calls %r" % (n, calls))
+            if retry == "retry" and calls != [True] * n:
+                ch.flag("exactly-once", "guaranteed sends that share one callback: not exactly one True per send", "%d sends, calls %r" % (n, calls))
+            recv = "s" if sender == "c" else "c"
+            if w.fault_free and retry == "none" and calls.count(True) != sum(1 for d in datas if mon.delivered[recv].get(d, 0) >= 1):
+                ch.flag("true-before-delivery", "shared callback: number of True results differs from the number of delivered messages", "calls %r" % calls)
+    finally:
+        w.close()
+
+
 def params_list_bound1(tier):
     """configurations explored with <= 1 deviation: the timeout of one fragment competes with the acks of the others"""
     out = []
@@ -346,9 +405,13 @@ def run(tier, seed):
         plist = plist[k:] + plist[:k]
     bound = 2
     st = explore.explore_all("checks.c07", "scenario", plist, bound, time_budget=(1000 if tier == "quick" else 4800))
+    sh = [(d, n, r, k, b) for d in ("c2s", "s2c") for n in (2, 3) for r in ("none", "retry", "best") for k in ("function", "bound-method") for b in (0, 70)
+          if tier == "thorough" or (n == 3 or r == "none")]
+    st_sh = explore.explore_all("checks.c07", "shared_cb_scenario", sh, 1, time_budget=900)
     plist1 = params_list_bound1(tier)
     st1 = explore.explore_all("checks.c07", "scenario", plist1, 1, time_budget=(900 if tier == "quick" else 1800))
     st.violations.extend(st1.violations)
+    st.violations.extend(st_sh.violations)
     b1 = {"configurations": len(plist1), "executions": st1.executions, "by_deviations": st1.by_cost, "capped_by_time_budget": st1.capped, "distinct_outcomes": len(st1.outcomes)}
     b3 = None
     if tier == "thorough":
@@ -365,7 +428,7 @@ def run(tier, seed):
         "max_deviations_completed": bound if not st.capped else "capped",
         "distinct_outcomes": len(st.outcomes), "evaluations": st.executions, "distinct_nontrivial": len(st.outcomes),
         "rule": "states = execution-tree nodes; transitions = virtual ticks on the real stack; outcomes = per-send callback value sequences + connection states",
-        "exhaustive": not st.capped and not st1.capped, "samples": st.samples[:4], "bound3_part": b3, "bound1_part": b1,
+        "exhaustive": not st.capped and not st1.capped, "samples": st.samples[:4], "bound3_part": b3, "bound1_part": b1, "shared_callback_part": {"configurations": len(sh), "executions": st_sh.executions, "distinct_outcomes": len(st_sh.outcomes)},
     }
     rep.assumptions = ["'accepted by the peer' is observed as 'handed to the peer application' (the harness drains deliveries in the same turn as the receive)",
                        "cb(False) timing is measured from the send() call, a lower bound of the datagram send time",
